@@ -106,3 +106,29 @@ theorem C06_source_summary_sweep_is_the_models (itemStart itemEnd nextStart fuel
    (gen_summary_piece nextStart s len).1, (gen_summary_piece nextStart s len).2, SectionCut.gen_wig_len e s⟩
 
 end Sweep
+
+namespace SF
+
+/-- **The code's own summary update of the bigWig writers** (regenerated from `process_val`): what a value adds to covered
+    bases, sum and sum of squares and how the running extrema move — one step of the summary fold with those expressions is
+    the model's `step`. The extrema of BOTH writers (single pass, two pass) start from the largest / smallest finite `f64`. -/
+theorem C06_source_wig_summary_update_is_the_models (r : Run) (x : Val) :
+    stepGen r x = step r x ∧ Gen.ws_min_init_full = .posMax ∧ Gen.ws_max_init_full = .negMax ∧
+    Gen.ws_min_init_nozoom = .posMax ∧ Gen.ws_max_init_nozoom = .negMax :=
+  ⟨gen_wig_summary_step r x, gen_extrema_start.1, gen_extrema_start.2.1, gen_extrema_start.2.2.1, gen_extrema_start.2.2.2.1⟩
+
+end SF
+
+namespace BSUM
+open SW
+
+/-- **The code's own summary update of the bigBed writer** (regenerated from the `match summary` of `process_val`): seeding
+    from the first flushed piece and adding later ones, with the source's expressions, is `addSeg`; and folding `addSeg` over
+    the pieces of positive length gives the chromosome summary `ofSegs` that the C06 theorems are about. -/
+theorem C06_source_bed_summary_update_is_the_models (st : Option Sm) (g : Seg) (l : List Seg)
+    (hpos : ∀ g ∈ l, g.s < g.e) (hne : l ≠ []) :
+    addSegGen st g = addSeg st g ∧ l.foldl addSeg none = some (ofSegs l) :=
+  ⟨gen_bed_summary_step st g, foldl_addSeg_eq_ofSegs l hpos hne⟩
+
+end BSUM
+
